@@ -1,5 +1,6 @@
 //! Engine K checks: the real compio runtime, driver, fs and net crates on the simulated io_uring kernel.
 
+mod cancel;
 mod kutil;
 mod smoke;
 mod streams;
@@ -20,6 +21,7 @@ fn main() {
     let _ = simkernel::end();
     let mut scenarios: Vec<Scenario> = Vec::new();
     scenarios.extend(smoke::scenarios());
+    scenarios.extend(cancel::scenarios());
     scenarios.extend(streams::scenarios());
     scenarios.extend(timers::scenarios());
     simcore::worker::main(&scenarios)
